@@ -782,7 +782,11 @@ def read_const(repo, rel, name):
 def jobs(ctx):
     props = ['C02', 'C03', 'C12', 'C05', 'C20', 'C06', 'C01']
     out = []
-    if ctx.prop in ('C02', 'C03', 'C12'):
+    if ctx.prop in ('C02', 'C12'):
         out += core_jobs(ctx, props)
+    elif ctx.prop == 'C03':
+        # ownership layer only: Done (order of release) and CallImpl (functor destroyed exactly once on every path) for the value class
+        out += [j for j in core_jobs(ctx, props) if j.name.startswith('core/Done.') or j.name.startswith('core/CallImpl.c2.') or j.name.startswith('core/CallResolveAsync.c2.')]
+        out = [j for j in out if '.task.' not in j.name]      # the Task-head finding F06 belongs to C02 / C12
     out += entry_jobs(ctx, props) + lazy_jobs(ctx, props)
     return out
